@@ -20,6 +20,7 @@ ASSUMPTIONS = ['ref_root_attach in this file is the set-based reading of the '
                '(interleaved ones are passed over), stay at sentence edges or '
                'when the lowest common dominator is the root']
 WATCHDOG = {'quick': 600, 'thorough': 3600}
+LONG_SENTENCES = 3      # floor for the stratum the runner adds (gen.maybe_long)
 MIN = {'quick': {'distinct': 400, 'hooks': {'transform.root_attach': 2000},
                  'strata': {'second call after in-place detachment': 300,
                             'moved>=2': 100, 'moved constituent': 50,
@@ -199,6 +200,7 @@ def shard(ctx):
         rng = ctx.rng('rand', i)
         n = rng.choice([3, 4, 5, 6, 8, 10, 15]) if rng.random() < 0.7 \
             else rng.randint(2, 40)
+        n = gen.maybe_long(rng, n, 0.003)
         spec = gen.tree(rng, n, pools, max_arity=rng.choice([2, 3, 4, 6]),
                         p_unary=rng.choice([0, 0.1, 0.25]),
                         moves=rng.choice([0, 0, 1, 2, 4]),
